@@ -380,7 +380,7 @@ func verifSpecCL(lowered string) primitive.ConsistencyLevel {
 //@   invariant forall(k, 0, len(nodes), below(nodes[k].tokens))
 //@   invariant forall(k, 0, rangeindex + 1, ufInt("big.parse", nodes[k].tokens[0], 10) == tokv((&numTokens).$v, k))
 
-//@ func proxy.Proxy.buildNodes [C10]
+//@ func proxy.Proxy.buildNodes [C10, C20]
 //@   let step = 18446744073709551615 / (len(p.config.Peers) + 1) + 1
 //@   requires p != nil && p.cluster != nil && p.logger != nil
 //@   ensures ring: err == nil ==> ringOK(p)
